@@ -30,9 +30,9 @@ def snapshot(u):
     return d
 
 
-def check_fixed_point(ctx, backend, p):
+def check_fixed_point(ctx, backend, p, touch=False):
     Y = ctx.yarl(backend)
-    u, trace = prog.run(Y, p)
+    u, trace = prog.run(Y, p, touch=touch)
     if u is None:
         ctx.case(False, label="skipped:rejected")
         return
@@ -67,7 +67,7 @@ CHECKS = {"fixed": check_fixed_point}
 
 def generated(ctx, backend, n):
     txt = gen.text(max_tokens=5, dots=True)
-    ctx.given("fixed", {"p": prog.program(txt, hosts=hosts(), max_ops=3, encoded_ctor=False)}, max_examples=n, fixed={"backend": backend})
+    ctx.given("fixed", {"p": prog.program(txt, hosts=hosts(), max_ops=3, encoded_ctor=False), "touch": st.booleans()}, max_examples=n, fixed={"backend": backend})
     # authority-less and scheme-less forms, rootless paths
     rel = st.builds(lambda sch, path, q, f: (sch + ":" if sch else "") + path + ("?" + q if q else "") + ("#" + f if f else ""),
                     st.sampled_from(["", "", "mailto", "urn", "http", "file", "x-y"]), txt.map(gen._strip("?#")), st.one_of(st.just(""), txt.map(gen._strip("#"))), st.one_of(st.just(""), txt))
